@@ -24,7 +24,7 @@ RULE = ("site in {caltech, jpl, office001} x basic/real EVSEs x generated transf
         "climb order kind, which transformer saturates)")
 PROBES = ["climb", "within_1pct_of_transformer", "concentrated_phase_pair", "sim_world", "sim_columns_checked",
           "jpl_first_floor_saturated", "jpl_third_fourth_saturated", "pod_or_panel_binding", "evse_limited_climb", "int_dtype_probe", "json_restart", "multi_period_probe",
-          "multi_period_reported_feasible"]
+          "multi_period_reported_feasible", "what_if_constraint_removed_on_own_copy"]
 FAULT_DIMENSION = "restart only (site network saved to JSON and loaded before probing); otherwise saturated-state distribution"
 REAL_VS_STUB = "real: caltech_acn / jpl_acn / office001_acn, Current algebra, ChargingNetwork.is_feasible, sorted algorithm + Simulator in the in-simulation layer"
 ASSUMPTIONS = ["external truth: which EVSEs sit behind which transformer (Caltech/Office001: all; JPL: AG-1F* vs AG-3F*/AG-4F*), "
@@ -244,6 +244,21 @@ def check(sc):
                 if bool(nw.is_feasible(A)):
                     check_schedule(out, nw, sc["site"], sc["site_kwargs"], ids, [float(x) for x in iv],
                                    "hill climb %d (%s) rounded %s, integer dtype" % (c, kind, nm), feasible_known=True)
+    # a what-if study on the caller's OWN network object (drop a constraint, look again): whoever builds the same site afterwards
+    # must still get the full constraint set (checked by the structural clauses of the next build, incl. '_repeat' replays)
+    if not out.viol and sc.get("what_if", True):
+        with warnings.catch_warnings():
+            warnings.simplefilter("ignore")
+            names_ = list(nw.constraint_index)
+            lims_ = [float(x) for x in nw.magnitudes]
+            if names_:
+                nw.remove_constraint(names_[r.randrange(len(names_))])
+                out.probe("what_if_constraint_removed_on_own_copy")
+                nw2 = build_network({"kind": sc["site"], "site_kwargs": sc["site_kwargs"]})
+                if nw2 is nw or list(nw2.constraint_index) != names_ or [float(x) for x in nw2.magnitudes] != lims_:
+                    out.add("C16/second_build_not_independent", "%s %s: after removing a constraint from one built network, building the same "
+                            "site again gives %d constraints (first build had %d)%s" % (sc["site"], sc["site_kwargs"], len(nw2.constraint_index),
+                                                                                     len(names_), " - the very same object" if nw2 is nw else ""))
     sat = [k for k, v in best.items() if v >= 0.99]
     if sat:
         out.probe("within_1pct_of_transformer")
